@@ -10,10 +10,10 @@ import (
 )
 
 func init() {
-	registerRule("entry-wiring", 9, "every exported entry point builds its loader, base path and root registration the way whole-spec expansion does", ruleEntryWiring)
-	registerRule("opts-immutable", 9, "the caller's *ExpandOptions only ever flows into the cloner", ruleOptsImmutable)
+	registerRule("entry-wiring", 22, "every exported entry point builds its loader, base path and root registration the way whole-spec expansion does", ruleEntryWiring)
+	registerRule("opts-immutable", 11, "the caller's *ExpandOptions only ever flows into the cloner", ruleOptsImmutable)
 	registerRule("resolve-pure", 9, "Resolve* entry points reach no expander and no chain dereference", ruleResolvePure)
-	registerRule("root-readonly", 6, "root and cached documents are only read: located with a JSON pointer and copied out by a JSON round trip", ruleRootReadonly)
+	registerRule("root-readonly", 15, "root and cached documents are only read: located with a JSON pointer and copied out by a JSON round trip", ruleRootReadonly)
 }
 
 func (c *Ctx) roleFunc(pred func(sig *types.Signature) bool) *types.Func {
